@@ -425,7 +425,7 @@ func c10Jobs(reps []*c10Replica, thorough bool) []c10Job {
 				jobs = append(jobs, c10Job{r, fi, "xor01", o, 0}, c10Job{r, fi, "xorff", o, 0})
 			}
 		}
-		for _, k := range []string{"exists-file", "exists-dir", "exists-symlink", "integrity", "integrity-quick", "integrity-magic", "integrity-magic-quick", "integrity-schema", "integrity-schema-quick"} {
+		for _, k := range []string{"exists-file", "exists-empty-file", "exists-dir", "exists-empty-dir", "exists-symlink", "integrity", "integrity-quick", "integrity-magic", "integrity-magic-quick", "integrity-schema", "integrity-schema-quick"} {
 			jobs = append(jobs, c10Job{r, 0, k, 0, 0})
 		}
 	}
@@ -499,12 +499,16 @@ func c10Exec(j c10Job, work string) (outcome string, prob *scn.Problem, desc str
 			// within the retry budget the fault must be transparent; not a property violation, recorded as an outcome class
 			outcome = "error-within-retry-budget:" + outcome
 		}
-	case "exists-file", "exists-dir", "exists-symlink":
+	case "exists-file", "exists-empty-file", "exists-dir", "exists-empty-dir", "exists-symlink":
 		out := filepath.Join(work, "pre")
 		os.RemoveAll(out)
 		switch j.kind {
 		case "exists-file":
 			os.WriteFile(out, []byte("precious"), 0o644)
+		case "exists-empty-file":
+			os.WriteFile(out, nil, 0o644)
+		case "exists-empty-dir":
+			os.MkdirAll(out, 0o755)
 		case "exists-dir":
 			os.MkdirAll(filepath.Join(out, "sub"), 0o755)
 		case "exists-symlink":
